@@ -20,6 +20,7 @@ package batch
 
 import (
 	"encoding/binary"
+	"errors"
 	"fmt"
 	"hash/fnv"
 	"io"
@@ -37,7 +38,7 @@ import (
 	"github.com/slackhq/nebula/overlay/tio"
 )
 
-const c23PID = "C23"
+var c23PID = "C23" // TestC12_TunWriteFaults records its cases under C12
 
 // c23KeyUDPLen names the recorded finding "UDP length field below the IP payload length".
 const c23KeyUDPLen = "udp-len-below-ip-len"
@@ -56,10 +57,27 @@ type c23Event struct {
 type c23Writer struct {
 	tso, uso bool
 	events   []c23Event
+	// fault injection (C12): the calls whose index is in failAt are recorded like any other delivery
+	// attempt and then report an error, as a tun device that is momentarily unable to take a packet
+	calls  int
+	failAt map[int]bool
+	failed int
+}
+
+func (w *c23Writer) fault() error {
+	w.calls++
+	if w.failAt[w.calls-1] {
+		w.failed++
+		return errors.New("verif: injected tun write fault")
+	}
+	return nil
 }
 
 func (w *c23Writer) Write(p []byte) (int, error) {
 	w.events = append(w.events, c23Event{data: append([]byte(nil), p...)})
+	if err := w.fault(); err != nil {
+		return 0, err
+	}
 	return len(p), nil
 }
 
@@ -71,7 +89,7 @@ func (w *c23Writer) WriteGSO(hdr, transportHdr []byte, pays [][]byte, proto tio.
 		e.data = append(e.data, p...)
 	}
 	w.events = append(w.events, e)
-	return nil
+	return w.fault()
 }
 
 func (w *c23Writer) Capabilities() tio.Capabilities { return tio.Capabilities{TSO: w.tso, USO: w.uso} }
@@ -884,8 +902,31 @@ func c23Round(rt *rapid.T, m *MultiCoalescer, w *c23Writer, flows []*c23Flow, r 
 		}
 		in = append(in, p)
 	}
-	if err := m.Flush(); err != nil {
+	w.calls, w.failed, w.failAt = 0, 0, nil
+	if c23Faults {
+		w.failAt = map[int]bool{}
+		for k, nf := 0, rapid.IntRange(1, 3).Draw(rt, "nFaults"); k < nf; k++ {
+			w.failAt[rapid.IntRange(0, max(0, min(len(in)-1, 40))).Draw(rt, "failWrite")] = true
+		}
+	}
+	if err := m.Flush(); err != nil && w.failed == 0 {
 		rt.Fatalf("Flush returned %v although the writer never fails", err)
+	}
+	if c23Faults {
+		// whatever the faulty flush left behind comes out with the next one: every packet must still have
+		// been handed to the device exactly once over both (a packet whose write failed is not retried,
+		// and above all a packet that WAS written is not written again)
+		attempts := len(w.events)
+		w.failAt = nil
+		if err := m.Flush(); err != nil {
+			rt.Fatalf("second Flush: %v", err)
+		}
+		if w.failed > 0 {
+			vk.Label(c23PID, "tun-write-fault-fired")
+			if len(w.events) > attempts {
+				vk.Label(c23PID, "writes-after-the-faulty-flush")
+			}
+		}
 	}
 
 	st, err := c23Oracle(in, w.events)
@@ -896,6 +937,9 @@ func c23Round(rt *rapid.T, m *MultiCoalescer, w *c23Writer, flows []*c23Flow, r 
 
 	// evidence
 	nt := gsoWrites > 0 && (reordered || interleaved)
+	if c23Faults {
+		nt = w.failed > 0 && len(in) > 1
+	}
 	labels := []string{"caps=" + capsLabel}
 	add := func(b bool, l string) {
 		if b {
@@ -960,8 +1004,23 @@ func c23NewCoalescer(rt *rapid.T) (*MultiCoalescer, *c23Writer, string) {
 	return NewMultiCoalescer(iw, slog.New(slog.NewTextHandler(io.Discard, nil))), w, caps
 }
 
+var c23Faults bool
+
+// TestC12_TunWriteFaults (property C12, "acted upon at most once"): the same generated batches, but
+// the device refuses 1-3 of the writes of a flush. The multiset/order oracle of C23 is applied to
+// all delivery attempts of that flush and the next one together: a packet that was handed to the
+// device must not be handed to it a second time because a neighbour's write failed.
+func TestC12_TunWriteFaults(t *testing.T) {
+	c23PID, c23Faults = "C12", true
+	c23Transparent(t, 1500)
+}
+
 func TestC23_Transparent(t *testing.T) {
-	vk.Check(t, 2000, func(rt *rapid.T) {
+	c23Transparent(t, 2000)
+}
+
+func c23Transparent(t *testing.T, cases int) {
+	vk.Check(t, cases, func(rt *rapid.T) {
 		m, w, caps := c23NewCoalescer(rt)
 		mode := rapid.IntRange(0, 13).Draw(rt, "mode")
 		bulk, mono := mode <= 2, mode == 0 // bulk: 1-3 run-heavy flows; mono: uninterrupted runs
